@@ -5,7 +5,7 @@
          m: Model.marshal(tree) = the bytes string.dump returned
          u: Model.unmarshal(bytes) = ok (tree, [])
          r: Model.marshal(Model.unmarshal(bytes)) = bytes
-    load <index> x<hex> = …             →  ok | err | panic   (Model.load; panic = negative UpvalueCount reaching NewClosure)
+    load <index> x<hex> = …             →  ok | err   (Model.load)
 -/
 import Oracle.Proto
 import GoluaVerif.Model.Marshal
@@ -112,9 +112,7 @@ def loadLine (lhs : String) : String :=
     match bytesOfHex (h.drop 1).toString with
     | some bs =>
       match load bs with
-      | .ok (.code _ _ _ _ _ uv _ _ _) => if uv.toInt < 0 then "panic" else "ok"
       | .ok _ => "ok"
-      | .error .hugeAlloc => "crash"
       | .error _ => "err"
     | none => "bad-line"
   | _ => "bad-line"
